@@ -305,6 +305,7 @@ func c45Gen(seed uint64, run int, tier string, prop string) *Case {
 	c.Cfg["sdotu"] = 1
 	c.Cfg["auth"] = int64(r.Intn(2))
 	c.Cfg["maxpend"] = int64(r.Pick(0, 2, 64))
+	c.Cfg["prochook"] = int64(r.Pick(0, 0, 1))
 	if prop == "C04" && run%5 == 4 {
 		c04BatchGen(r, c, tier)
 		return c
@@ -566,9 +567,50 @@ func c45Exec(x *Ctx) {
 				cp := *f
 				srcFid = &cp
 			}
+			// now and then a request that the framework forwards is cancelled while the implementation has it
+			// (Tflush, FlushOp calling req.Flush()): it has no effect on the table, and the history goes on
+			var saved *fidModel
+			switch typ {
+			case Twalk, Tstat, Tclunk, Tremove, Topen, Tcreate, Tread, Twstat:
+				if hr.Pct(8) {
+					saved = model.clone()
+				}
+			}
 			v := model.judge(op)
+			var preSent *Sent
+			if saved != nil && v.refuse == "" && !v.anyErr && v.op != "" && !strings.HasPrefix(v.op, "auth") {
+				holdTag[tag] = true
+				s := peer.Write(msg)[0]
+				preSent = s
+				rt.YieldUntil(rt.SiteActor, func() bool { return len(fs.HeldInvs()) > 0 || s.Reply != nil || peer.EOF })
+				if len(fs.HeldInvs()) > 0 && s.Reply == nil {
+					fr := peer.Call(&Msg{Type: Tflush, Tag: uint16(45000 + i%10000), Oldtag: tag})
+					if fr == nil || fr.M == nil || fr.M.Type != Rflush {
+						report("a0-no-reply", "Tflush of request %d (%s) was not answered with Rflush", i, msg)
+						report("b0-no-reply", "Tflush of request %d (%s) was not answered with Rflush", i, msg)
+						return
+					}
+					for _, h := range fs.HeldInvs() {
+						h.Released = true
+					}
+					if s.Reply == nil {
+						peer.dropOut(s)
+						model = saved
+						x.Probe("request-cancelled-mid-history")
+						continue
+					}
+				}
+				rt.YieldUntil(rt.SiteActor, func() bool { return s.Reply != nil || peer.EOF })
+				if s.Reply == nil {
+					report("a0-no-reply", "request %d (%s) got no reply", i, msg)
+					report("b0-no-reply", "request %d (%s) got no reply", i, msg)
+					return
+				}
+			}
 			var rep *Recvd
-			if v.op == "write" && v.refuse == "" && !v.anyErr && hr.Pct(30) {
+			if preSent != nil {
+				rep = preSent.Reply // it was answered before the flush could cancel it: judged like any other request
+			} else if v.op == "write" && v.refuse == "" && !v.anyErr && hr.Pct(30) {
 				// the implementation keeps the Twrite for a while and the client's next request (one the
 				// framework refuses by itself) arrives meanwhile: what the implementation was handed stays intact
 				holdTag[tag] = true
@@ -600,7 +642,7 @@ func c45Exec(x *Ctx) {
 					destroyed = append(destroyed, in)
 				case in.Op == "authcheck":
 					pre = append(pre, in)
-				case in.Op == "connopened" || in.Op == "connclosed":
+				case in.Op == "connopened" || in.Op == "connclosed" || in.Op == "flush":
 				default:
 					invs = append(invs, in)
 				}
